@@ -1,6 +1,19 @@
 """C18 - see DESIGN.md section 5/C18.  Bounded stand-in (bounded/C18.py) of the property's
-contract on the real code; labelled bounded, never counted as proved."""
+contract on the real code (coefficients against analytic derivatives, frame checks,
+sequential = parallel); labelled bounded, never counted as proved.
+
+Deductive part (contracts/mca_frames.py with contracts/model_edit.py): the clause "leaves
+the model's parameter values as it found them" is proved for mca.parameter_elasticities -
+on normal return every parameter record has the value it had on entry, the containers
+and the name space are unchanged - on top of a value-level contract of
+Model.update_parameters that is proved as well (each named parameter given as a plain
+value ends with that value, no other record changes).  Assumed: get_parameter_values()
+returns the current plain values; get_fluxes / get_initial_conditions write only the
+cache field."""
 from props._runner import run
 
 if __name__ == "__main__":
-    run("C18", "exploration", notes="C18: run-time contract on the real code over an enumerated small scope (bounded stand-in)")
+    run("C18", "exploration", files=["model_edit.py", "mca_frames.py"],
+        targets=["mxlpy.model:Model.update_parameters", "mxlpy.mca:parameter_elasticities"],
+        notes="C18: run-time contract on the real code over an enumerated small scope (bounded stand-in, deciding); "
+              "parameter_elasticities proved to restore every parameter value on normal return")
